@@ -60,7 +60,10 @@ def with_subs(spec, rng, size_ok=True):
     plan = spec.setdefault('plan', {})
     for i, s in enumerate(subs):
         if s.pop('_raise_on_done', False):
-            plan.setdefault('faults', []).append({'at': f't0/cb:on_done:s{i}#0', 'phase': 'before', 'kind': 'exc', 'tag': f'FAULT-ondone-{i}'})
+            # (whatever the callback raises - also the library's own CancelledError / FatalError, which is what an unguarded
+            # future.result() inside on_done raises for a cancelled transfer)
+            plan.setdefault('faults', []).append({'at': f't0/cb:on_done:s{i}#0', 'phase': 'before', 'kind': rng.choice(['exc', 'exc', 'cancelled_exc', 'fatal_exc', 'oserror']),
+                                                  'tag': f'FAULT-ondone-{i}'})
     return spec
 
 
